@@ -4,7 +4,7 @@ import z3
 from pyvc import extract
 from pyvc.contract import BytesOfLen, Const, Contract, Obj, Str
 from pyvc.runner import Finite
-from pyvc.values import SInt, SList, SStr, SStub
+from pyvc.values import SInt, SList, SObj, SStr, SStub
 
 B = "passlib/utils/binary.py"
 
@@ -230,3 +230,26 @@ for _kind, _t in (("text", Str()), ("bytes", Bytes())):
         ensures=[("the standard decoder receives the input with the mistyped characters corrected ('8' -> 'B', '0' -> 'O'), padded with '=' to a multiple of 8 -- for text and bytes input alike", _b32_post)],
         descr=f"every ASCII {_kind} input",
     ))
+
+
+# ---- the unpadded base64 helper restores exactly the padding that was stripped ------------------------------------------------
+def _b64s_post(it, env):
+    got = it.to_z3(it.run.ghost["a2b_base64"])
+    data = it.to_z3(env.lookup("data"))
+    n = z3.Length(data)
+    pad = z3.If(n % 4 == 2, z3.StringVal("=="), z3.If(n % 4 == 3, z3.StringVal("="), z3.StringVal("")))
+    return z3.And(got == z3.Concat(data, pad), z3.Length(got) % 4 == 0)
+
+
+for _file, _tag, _stub in ((B, "passlib", "a2b_base64"), ("libpass/_utils/deprecated.py", "libpass", "binascii")):
+    for _kind, _t in (("text", Str()), ("bytes", Bytes())):
+        _g = {"a2b_base64": _capture("a2b_base64")} if _stub == "a2b_base64" else {"binascii": SObj("binascii", fields={"a2b_base64": _capture("a2b_base64"), "Error": __import__("pyvc.symexec", fromlist=["exc_class"]).exc_class("ValueError")})}
+        CONTRACTS.append(Contract(
+            f"b64s_decode[{_tag}, {_kind}]", f"{_file}::b64s_decode",
+            params={"data": _t},
+            globals=_g,
+            requires=[lambda it, env: it.all_codes_below(it.to_z3(env.lookup("data")), 128)],
+            raises_iff={"ValueError": "len(data) % 4 == 1"},
+            ensures=[("the standard decoder receives the input padded with '=' to a multiple of four ('==' after two leftover characters, '=' after three); one leftover character is refused", _b64s_post)],
+            descr=f"every ASCII {_kind} input",
+        ))
